@@ -571,8 +571,9 @@ package ion
 
 //@ func readLocalSymbolTable
 //@ trusted assumed: on success the reader has consumed the symbol-table struct, stands after it with its invariant intact, and a table is returned (to be replaced by a proof over the Reader interface contract)
-//@ modifies vcAsBinaryReader(r).eof, vcAsBinaryReader(r).lst, vcAsBinaryReader(r).fieldName, vcAsBinaryReader(r).annotations, vcAsBinaryReader(r).valueType, vcAsBinaryReader(r).value, vcAsBinaryReader(r).ctx.arr, vcAsBinaryReader(r).bits.pos, vcAsBinaryReader(r).bits.state, vcAsBinaryReader(r).bits.code, vcAsBinaryReader(r).bits.null, vcAsBinaryReader(r).bits.len, vcAsBinaryReader(r).bits.stack.arr, vcStreamOf(vcAsBinaryReader(r).bits.in).cur
+//@ modifies vcAsBinaryReader(r).eof, vcAsBinaryReader(r).lst, vcAsBinaryReader(r).fieldName, vcAsBinaryReader(r).annotations, vcAsBinaryReader(r).valueType, vcAsBinaryReader(r).value, vcAsBinaryReader(r).ctx.arr, vcAsBinaryReader(r).bits.pos, vcAsBinaryReader(r).bits.state, vcAsBinaryReader(r).bits.code, vcAsBinaryReader(r).bits.null, vcAsBinaryReader(r).bits.len, vcAsBinaryReader(r).bits.stack.arr, vcStreamOf(vcAsBinaryReader(r).bits.in).cur, vcAsTextReader(r).err, vcAsTextReader(r).state, vcAsTextReader(r).eof, vcAsTextReader(r).lst, vcAsTextReader(r).fieldName, vcAsTextReader(r).annotations, vcAsTextReader(r).valueType, vcAsTextReader(r).value, vcAsTextReader(r).ctx.arr, vcAsTextReader(r).tok.token, vcAsTextReader(r).tok.unfinished, vcAsTextReader(r).tok.pos, vcAsTextReader(r).tok.buffer, vcStreamOf(vcAsTextReader(r).tok.in).cur
 //@ ensures err == nil ==> result != nil
+//@ ensures err == nil && vcIsTextReader(r) ==> txInv(vcAsTextReader(r)) && vcAsTextReader(r).err == nil && !vcAsTextReader(r).eof && vcAsTextReader(r).valueType == NoType && vcAsTextReader(r).value == nil && vcAsTextReader(r).state == trsBeforeTypeAnnotations
 //@ ensures err == nil && vcIsBinaryReader(r) ==> brInv(vcAsBinaryReader(r)) && vcAsBinaryReader(r).err == nil && !vcAsBinaryReader(r).eof && vcAsBinaryReader(r).bits.state != bssOnValue && vcAsBinaryReader(r).valueType == NoType && vcAsBinaryReader(r).value == nil
 
 //@ func (*binaryReader).readBVM
@@ -1207,4 +1208,163 @@ package ion
 //@ ensures[C02,C08] old(len(t.buffer)) > 0 ==> err == nil && result == old(t.buffer[len(t.buffer)-1]) && len(t.buffer) == old(len(t.buffer)) && t.pos == old(t.pos) && tkS(t).cur == old(tkS(t).cur)
 //@ ensures[C02,C08] err == nil ==> len(t.buffer) >= 1 && t.buffer[len(t.buffer)-1] == result && t.pos == old(t.pos)
 //@ ensures[C19] old(len(t.buffer)) == 0 && old(tkAvail(t)) == 0 && old(tkS(t).end) != io.EOF ==> err != nil
+//@ safe[C06]
+
+// ---------------------------------------------------------------------------
+// textreader.go: the state machine of the text reader. The tokenizer's scanning methods
+// are trusted thin contracts (their grammar is not under contract yet): assumed to touch
+// only the tokenizer. What is decided here are the reader's own decisions: which closing
+// token ends which container, that annotations need a value, that an error is permanent
+// (C07), and that refused calls change nothing (C08).
+
+//@ func (*tokenizer).Next
+//@ trusted thin: assumed to terminate, to modify only the tokenizer and to mark a container's opening token as an unfinished value (scanning grammar not under contract)
+//@ requires tkStream(t)
+//@ modifies t.token, t.unfinished, t.pos, t.buffer, vcStreamOf(t.in).cur
+//@ ensures tkStream(t)
+//@ ensures err == nil ==> tkOpenUnfinished(t)
+
+//@ func (*tokenizer).FinishValue
+//@ trusted thin: assumed to terminate, to modify only the tokenizer and to report true exactly when a value was unfinished (scanning grammar not under contract)
+//@ requires tkStream(t)
+//@ modifies t.token, t.unfinished, t.pos, t.buffer, vcStreamOf(t.in).cur
+//@ ensures tkStream(t)
+//@ ensures err == nil ==> result == old(t.unfinished) && !t.unfinished
+
+//@ func (*tokenizer).SkipDoubleColon
+//@ trusted thin: assumed to terminate and to modify only the tokenizer (scanning grammar not under contract)
+//@ requires tkStream(t)
+//@ modifies t.token, t.unfinished, t.pos, t.buffer, vcStreamOf(t.in).cur
+//@ ensures tkStream(t)
+
+//@ func (*tokenizer).ReadValue
+//@ trusted thin: assumed to terminate and to modify only the tokenizer (scanning grammar not under contract)
+//@ requires tkStream(t)
+//@ modifies t.token, t.unfinished, t.pos, t.buffer, vcStreamOf(t.in).cur
+//@ ensures tkStream(t)
+
+//@ func (*tokenizer).SkipContainerContents
+//@ trusted thin: assumed to terminate and to modify only the tokenizer (scanning grammar not under contract)
+//@ requires tkStream(t)
+//@ modifies t.token, t.unfinished, t.pos, t.buffer, vcStreamOf(t.in).cur
+//@ ensures tkStream(t)
+
+//@ func (*tokenizer).SetFinished
+//@ modifies t.unfinished
+//@ ensures !t.unfinished
+
+//@ func (*textReader).onSymbol
+//@ trusted thin: assumed to set the value fields and the state consistently (literal parsing not under contract)
+//@ requires txInv(t)
+//@ modifies t.state, t.valueType, t.value, t.tok.token, t.tok.unfinished, t.tok.pos, t.tok.buffer, vcStreamOf(t.tok.in).cur
+//@ ensures err == nil ==> txInv(t) && t.state != trsBeforeContainer && t.state != trsDone && t.valueType != NoType
+
+//@ func (*textReader).onNumber
+//@ trusted thin: assumed to set the value fields and the state consistently (literal parsing not under contract)
+//@ requires txInv(t)
+//@ modifies t.state, t.valueType, t.value, t.tok.token, t.tok.unfinished, t.tok.pos, t.tok.buffer, vcStreamOf(t.tok.in).cur
+//@ ensures err == nil ==> txInv(t) && t.state != trsBeforeContainer && t.state != trsDone && t.valueType != NoType
+
+//@ func (*textReader).onTimestamp
+//@ trusted thin: assumed to set the value fields and the state consistently (literal parsing not under contract)
+//@ requires txInv(t)
+//@ modifies t.state, t.valueType, t.value, t.tok.token, t.tok.unfinished, t.tok.pos, t.tok.buffer, vcStreamOf(t.tok.in).cur
+//@ ensures err == nil ==> txInv(t) && t.state != trsBeforeContainer && t.state != trsDone && t.valueType != NoType
+
+//@ func (*textReader).onLob
+//@ trusted thin: assumed to set the value fields and the state consistently (literal parsing not under contract)
+//@ requires txInv(t)
+//@ modifies t.state, t.valueType, t.value, t.tok.token, t.tok.unfinished, t.tok.pos, t.tok.buffer, vcStreamOf(t.tok.in).cur
+//@ ensures err == nil ==> txInv(t) && t.state != trsBeforeContainer && t.state != trsDone && t.valueType != NoType
+
+//@ func (*textReader).verifyUnquotedSymbol
+//@ trusted thin: keyword table not under contract
+//@ modifies nothing
+
+//@ func newSymbolToken
+//@ trusted thin: symbol text resolution not under contract
+//@ modifies nothing
+
+//@ func (*textReader).stateAfterValue
+//@ inline
+//@ requires specCtxTop(t.ctx.arr) <= ctxInSexp
+//@ modifies nothing
+//@ ensures[C02,C07] (specCtxTop(t.ctx.arr) == ctxInList || specCtxTop(t.ctx.arr) == ctxInStruct) ==> result == trsAfterValue
+//@ ensures[C02,C07] (specCtxTop(t.ctx.arr) == ctxInSexp || specCtxTop(t.ctx.arr) == ctxAtTopLevel) ==> result == trsBeforeTypeAnnotations
+//@ safe[C06]
+
+//@ func (*textReader).nextAfterValue
+//@ split returns
+//@ requires specCtxTop(t.ctx.arr) == ctxInStruct || specCtxTop(t.ctx.arr) == ctxInList
+//@ modifies t.state, t.eof
+//@ ensures[C07] t.tok.token == tokenCloseBrace && specCtxTop(t.ctx.arr) != ctxInStruct ==> err != nil
+//@ ensures[C07] t.tok.token == tokenCloseBracket && specCtxTop(t.ctx.arr) != ctxInList ==> err != nil
+//@ ensures[C07] t.tok.token != tokenComma && t.tok.token != tokenCloseBrace && t.tok.token != tokenCloseBracket ==> err != nil
+//@ ensures[C02,C07] err == nil && t.tok.token == tokenComma ==> !result && t.eof == old(t.eof) &&
+//@    ((specCtxTop(t.ctx.arr) == ctxInStruct && t.state == trsBeforeFieldName) || (specCtxTop(t.ctx.arr) == ctxInList && t.state == trsBeforeTypeAnnotations))
+//@ ensures[C02] err == nil && t.tok.token != tokenComma ==> result && t.eof && t.state == old(t.state)
+//@ ensures[C07] err != nil ==> t.state == old(t.state) && t.eof == old(t.eof)
+//@ safe[C06]
+
+//@ func (*textReader).nextBeforeTypeAnnotations
+//@ split returns
+//@ requires txInv(t) && t.state == trsBeforeTypeAnnotations && t.err == nil && !t.eof && tkOpenUnfinished(&t.tok)
+//@ modifies t.err, t.state, t.eof, t.lst, t.fieldName, t.annotations, t.valueType, t.value, t.ctx.arr, t.tok.token, t.tok.unfinished, t.tok.pos, t.tok.buffer, vcStreamOf(t.tok.in).cur
+//@ ensures[C07] old(t.tok.token) == tokenEOF && (old(specCtxTop(t.ctx.arr)) != ctxAtTopLevel || old(len(t.annotations)) > 0) ==> err != nil
+//@ ensures[C07] old(t.tok.token) == tokenCloseBracket && (old(specCtxTop(t.ctx.arr)) != ctxInList || old(len(t.annotations)) > 0) ==> err != nil
+//@ ensures[C07] old(t.tok.token) == tokenCloseParen && (old(specCtxTop(t.ctx.arr)) != ctxInSexp || old(len(t.annotations)) > 0) ==> err != nil
+//@ ensures[C07] old(t.tok.token) == tokenCloseBrace || old(t.tok.token) == tokenComma || old(t.tok.token) == tokenColon || old(t.tok.token) == tokenDoubleColon || old(t.tok.token) == tokenError ==> err != nil
+//@ ensures[C07] (old(t.tok.token) == tokenSymbolOperator || old(t.tok.token) == tokenDot) && old(specCtxTop(t.ctx.arr)) != ctxInSexp ==> err != nil
+//@ ensures[C07,C08] err == nil ==> txInv(t) && t.err == nil
+//@ ensures[C07,C08] err == nil && result && !t.eof ==> t.valueType != NoType
+//@ ensures[C07,C08] err == nil && !result ==> t.state == trsBeforeTypeAnnotations && !t.eof
+//@ ensures[C07,C08] err == nil && result ==> t.state != trsDone
+//@ safe[C06]
+
+//@ func (*textReader).nextBeforeFieldName
+//@ trusted thin: field name parsing not under contract
+//@ requires txInv(t) && t.state == trsBeforeFieldName && t.err == nil
+//@ modifies t.state, t.eof, t.fieldName, t.tok.token, t.tok.unfinished, t.tok.pos, t.tok.buffer, vcStreamOf(t.tok.in).cur
+//@ ensures err == nil ==> txInv(t) && t.err == nil && (t.state == trsBeforeFieldName || t.state == trsBeforeTypeAnnotations)
+//@ ensures err == nil && !result ==> t.eof == old(t.eof)
+
+//@ func (*textReader).finishValue
+//@ requires txInv(t) && t.state != trsDone
+//@ modifies t.state, t.tok.token, t.tok.unfinished, t.tok.pos, t.tok.buffer, vcStreamOf(t.tok.in).cur
+//@ ensures[C08] err == nil ==> txInv(t) && t.err == nil && t.state != trsBeforeContainer && t.state != trsDone
+//@ ensures[C08] err == nil ==> t.state == old(t.state) || t.state == trsAfterValue || t.state == trsBeforeTypeAnnotations
+
+//@ func (*textReader).explode
+//@ modifies t.state, t.err
+//@ ensures[C07] t.state == trsDone && t.err == err
+
+//@ func (*textReader).Next
+//@ requires txInv(t)
+//@ invariant loop0 txInv(t) && t.err == nil && !t.eof && t.state != trsDone && t.state != trsBeforeContainer
+//@ modifies t.err, t.state, t.eof, t.lst, t.fieldName, t.annotations, t.valueType, t.value, t.ctx.arr, t.tok.token, t.tok.unfinished, t.tok.pos, t.tok.buffer, vcStreamOf(t.tok.in).cur
+//@ ensures[C07,C08] old(t.state) == trsDone || old(t.eof) ==> !result && t.err == old(t.err) && t.state == old(t.state) && t.eof == old(t.eof) && t.valueType == old(t.valueType)
+//@ ensures[C07] result ==> t.err == nil && !t.eof
+//@ ensures[C07] old(t.err) != nil ==> !result && t.err == old(t.err)
+//@ ensures[C07] !result ==> t.eof || (t.err != nil && t.state == trsDone) || old(t.state) == trsDone
+//@ ensures[C07,C08] t.err == nil || t.state == trsDone
+//@ safe[C06]
+
+//@ func (*textReader).StepIn
+//@ requires txInv(t) && txCtxOK(t)
+//@ ensures[C06,C08] txCtxOK(t)
+//@ modifies t.state, t.ctx.arr, t.fieldName, t.annotations, t.valueType, t.value, t.tok.unfinished
+//@ ensures[C07,C08] old(t.err) != nil ==> err == old(t.err) && t.state == old(t.state) && len(t.ctx.arr) == old(len(t.ctx.arr)) && t.valueType == old(t.valueType)
+//@ ensures[C08] old(t.err) == nil && old(t.state) != trsBeforeContainer ==> err != nil && t.state == old(t.state) && len(t.ctx.arr) == old(len(t.ctx.arr)) && t.valueType == old(t.valueType) && t.value == old(t.value)
+//@ ensures[C08] old(t.err) == nil && old(t.state) == trsBeforeContainer ==> err == nil && len(t.ctx.arr) == old(len(t.ctx.arr))+1 && t.valueType == NoType && t.value == nil && !t.tok.unfinished
+//@ ensures[C08] txInv(t)
+//@ safe[C06]
+
+//@ func (*textReader).StepOut
+//@ requires txInv(t) && txCtxOK(t)
+//@ ensures[C06,C08] txCtxOK(t)
+//@ modifies t.err, t.state, t.eof, t.ctx.arr, t.fieldName, t.annotations, t.valueType, t.value, t.tok.token, t.tok.unfinished, t.tok.pos, t.tok.buffer, vcStreamOf(t.tok.in).cur
+//@ ensures[C07,C08] old(t.err) != nil ==> err == old(t.err) && t.state == old(t.state) && len(t.ctx.arr) == old(len(t.ctx.arr))
+//@ ensures[C08] old(t.err) == nil && old(specCtxTop(t.ctx.arr)) == ctxAtTopLevel ==> err != nil && t.state == old(t.state) && t.valueType == old(t.valueType) && t.eof == old(t.eof) && len(t.ctx.arr) == old(len(t.ctx.arr))
+//@ ensures[C07] old(t.err) == nil && err != nil && old(specCtxTop(t.ctx.arr)) != ctxAtTopLevel ==> t.err == err && t.state == trsDone
+//@ ensures[C08] err == nil ==> len(t.ctx.arr) == old(len(t.ctx.arr))-1 && !t.eof && t.valueType == NoType && t.value == nil && txInv(t)
 //@ safe[C06]
